@@ -367,6 +367,38 @@ def run(ctx):
         ctx.case('classifier', nontrivial_key=('clf', k), sample=dict(classes=kc, shape=[nr, nv + 1]))
         ctx.count('classifier')
         validate(ctx, root, nv + 1, dict(kind='c04', learner='learn_classifier', data=D.tolist()), 'learn_classifier', discrete=False)
+    # (iv-a2) row splits into THREE clusters (and random / density-based ones) on chain-dependent columns, where column splits fail and
+    # row splits nest to different depths: sums whose sum children have different numbers of children reach the final pruning step
+    for k in range(10 if quick else 120):
+        rs = np.random.RandomState(np_seed(ctx.sub_rng('threeway', k)))
+        nv = int(rs.randint(4, 8)); nr = int(rs.choice([200, 400]))
+        X = np.zeros((nr, nv), dtype=np.float32)
+        X[:, 0] = rs.rand(nr) < 0.5
+        for j in range(1, nv):
+            X[:, j] = np.where(rs.rand(nr) < 0.85, X[:, j - 1], 1 - X[:, j - 1])
+        if k % 3 == 0:
+            X[:, nv - 1] = X[:, 1]
+        rsplit = ['kmeans', 'gmm', 'random', 'kmeans_mb', 'dbscan'][k % 5]
+        kw = dict(learn_leaf='mle', split_rows=rsplit, split_cols=str(rs.choice(['gvs', 'rdc'])), min_rows_slice=int(rs.choice([10, 25])), min_cols_slice=2,
+                  random_state=int(rs.randint(1000)), verbose=False)
+        if rsplit in ('kmeans', 'gmm', 'kmeans_mb'):
+            kw['split_rows_kwargs'] = dict(n=3)
+        clf = (k % 2 == 1)
+        rep = dict(kind='c04', learner='learn_classifier' if clf else 'learn_estimator', data=X.astype(int).tolist(), kwargs=dict(kw))
+        try:
+            if clf:
+                root = learn_classifier(X, [Bernoulli] * nv, [[0, 1]] * nv, **kw)
+            else:
+                root = learn_estimator(X, [Bernoulli] * nv, [[0, 1]] * nv, **kw)
+        except Exception:
+            ctx.count('learner-did-not-return')
+            continue
+        fan = sorted({len(c.children) for n in S.bfs_order(root) if isinstance(n, Sum) for c in n.children if isinstance(c, Sum)})
+        ctx.case('threeway', nontrivial_key=('threeway', k), sample=dict(rows=rsplit, shape=[nr, nv], classifier=clf))
+        ctx.count('three-way-row-splits-on-chain-data')
+        validate(ctx, root, nv, rep, f"{'learn_classifier' if clf else 'learn_estimator'}({rsplit}, n=3) on chain-dependent data {nr}x{nv}")
+        if ctx.n_new(with_input_only=True) >= 3:
+            return
     # (iv-b) degenerate shapes: a single training row, all rows identical (every column constant at the root task)
     for k in range(8 if quick else 60):
         rs = np.random.RandomState(np_seed(ctx.sub_rng('degenerate', k)))
